@@ -52,7 +52,8 @@ QueriesI2 == { QPtr(<<1>>), QExp("X", <<1>>), QMarg(<<1>>, <<>>) }
 GatesE3 == { G("H", <<0>>, e0, e0), G("T", <<2>>, e0, e0), G("CX", <<0, 2>>, e0, e0), G("CX", <<2, 1>>, e0, e0),
              G("SWAP", <<0, 2>>, e0, e0), G("SWAP", <<1, 2>>, e0, e0), G("IDEN", <<1>>, e0, e0),
              GP("RX", <<1>>, e0, <<2>>), G("FSIM", <<1, 0>>, e0, <<1, 3>>), G("CCX", <<2, 0, 1>>, e0, e0),
-             G("X", <<1>>, <<2, 0>>, e0), G("SWAP", <<0, 1>>, <<2>>, e0), G("R2A", <<2, 0>>, e0, e0) }
+             G("X", <<1>>, <<2, 0>>, e0), G("SWAP", <<0, 1>>, <<2>>, e0), G("R2A", <<2, 0>>, e0, e0),
+             GP("RZ", <<1>>, <<0>>, <<2>>) }
 QueriesE3 == { QAmp(<<1, 0, 1>>), QDense(FALSE), QPtr(<<0>>), QPtr(<<2>>), QPtr(<<2, 0>>), QPtr(<<1>>),
                QExp("P01", <<1>>), QExp("YZ", <<0, 2>>), QMarg(<<2>>, << <<0, 1>> >>), QMarg(<<1, 0>>, <<>>), Q("sample") }
 
